@@ -6,7 +6,7 @@
 EXTENDS Keys, IOUtils, TLCExt
 Batch == JsonDeserialize(IOEnv.TRACE_FILE)
 VARIABLES tid
-tvars == <<dirs, listing, put, tid>>
+tvars == <<dirs, listing, put, form, tid>>
 Obs == Batch.obs[tid]
 Vs == Obs.vers
 L == Obs.listing
@@ -17,7 +17,7 @@ LatestMax == IF Len(Vs) = 0 THEN Obs.latest = 0
 \* the sort-key formulation agrees with the prose formulation on every observed pair as well (a model self-check)
 Agree == \A a, b \in 1..Len(Vs) : Less(Vs[a], Vs[b]) <=> KeyLess(Vs[a], Vs[b])
 Good == StrictlyAscending /\ Complete /\ LatestMax
-TInit == tid \in 1..Len(Batch.obs) /\ dirs = {} /\ listing = <<>> /\ put = 0
+TInit == tid \in 1..Len(Batch.obs) /\ dirs = {} /\ listing = <<>> /\ put = 0 /\ form = "key"
 TNext == UNCHANGED tvars
 TSpec == TInit /\ [][TNext]_tvars
 Judge == TLCSet(tid, IF ~Agree THEN 2 ELSE IF Good THEN 1 ELSE 0)      \* 2 = the model disagrees with itself
